@@ -17,6 +17,6 @@ for f in sorted(os.listdir(os.path.join(VERIF, 'seeded', 'benign'))):
         sh('git -C /repo checkout -- .')
     v = sorted(set(re.findall(r'VIOLATION property=(\S+)', r.stdout)))
     ok = len(re.findall(r'^C\d+: OK', r.stdout, re.M))
-    print('%-8s alarms=%s decided(OK)=%d undecided=%d' % (f, ','.join(v) or 'none', ok, 16 - ok - len(v)))
+    print('%-8s alarms=%s decided(OK)=%d undecided=%d' % (f, ','.join(v) or 'none', ok, 18 - ok - len(v)))
     bad += len(v)
 print('FALSE ALARMS: %d' % bad); sys.exit(1 if bad else 0)
